@@ -266,6 +266,29 @@ def tab1(units, R, unit_name='cJSON.c', claim=('parse_value', 'cJSON_Duplicate_r
             rest = names - fns
             g2 = {n: {m for m in g[n] if m in rest} for n in rest}
             left = [c for c in _sccs(g2, set(g2)) if len(c) > 1 or c[0] in g2.get(c[0], ())]
+            if left and not fns:
+                # no gate anywhere in the cycle: is the recursion bounded by a walk over the same tree that every entry makes first
+                # (if (nests_deeper_than(item, LIMIT)) return NULL; return duplicate_item(item))?  Whether that walk visits what the
+                # cycle visits is not something this rule decides: the code is outside what TAB1 models, not a violation of it
+                for caller in u.function_list:
+                    if caller.name in names or caller.body is None:
+                        continue
+                    ccfg = None
+                    for c_in in caller.calls():
+                        if callee_name(c_in) not in names or not c_in.get('args'):
+                            continue
+                        a0 = expr_str(strip_casts(c_in['args'][0]))
+                        for c_pre in caller.calls():
+                            pn = callee_name(c_pre)
+                            if pn in names or pn not in u.functions or pn in known or not c_pre.get('args'):
+                                continue
+                            if expr_str(strip_casts(c_pre['args'][0])) != a0 or pn not in g.get(pn, ()):
+                                continue
+                            ccfg = ccfg or caller.cfg()
+                            n_pre, n_in = ccfg.node_of_expr(c_pre['id']), ccfg.node_of_expr(c_in['id'])
+                            if n_pre is not None and n_in is not None and n_in.id in ccfg.reachable(n_pre.id):
+                                raise AnalysisBroken('TAB1: the recursion of %s has no depth gate of its own; %s walks the same tree with %s '
+                                                     'first, a bound this rule does not model' % (sorted(names)[0], caller.name, pn))
             R.ob('TAB1', u.functions[sorted(names)[0]], None, 'every cycle of {%s} %s' % (', '.join(sorted(names)), what),
                  not left, '%s' % sorted(fns) if not left else 'a cycle through %s does not' % sorted(left[0]),
                  key=key + ':' + ','.join(sorted(names)))
